@@ -82,6 +82,8 @@ func Families(family string, seed int64, count int) []Driver {
 			c := []Config{{Mode: "fwd", RawServer: true}, {Mode: "rev", RawServer: true}, {Mode: "fwd", RawServer: true, CDisable: true},
 				{Mode: "rev", RawServer: true, CDisable: true}, {Mode: "fwd", RawServer: true, SLegacy: true}, {Mode: "rev", RawServer: true, SLegacy: true}}[i%6]
 			out = append(out, newRawServer(name, s, c, false, true))
+		case "regraw":
+			out = append(out, newRegistryRawDriver(name, s))
 		case "registry":
 			out = append(out, newRegistryDriver(name, s, i%4 != 0))
 		case "nohol":
